@@ -123,11 +123,13 @@ theorem lattice_roundtrip (arg : BoxArg) :
 
 /-! ### the whole file -/
 
-/-- the clauses of the property relating a written record `r` and the record `q` read back -/
+/-- the clauses of the property relating a written record `r` and the record `q` read back
+    (numbers that fit five digits unchanged; in general: wrapped modulo 100000) -/
 def RecSame (d : Nat) (r : Rec) (q : RRec) : Prop :=
   q.resname = r.resname ∧ q.name = r.name ∧
   (0 ≤ r.resnum → r.resnum ≤ 99999 → q.resnum = r.resnum) ∧
   (0 ≤ r.atomnum → r.atomnum ≤ 99999 → q.atomnum = r.atomnum) ∧
+  q.resnum = r.resnum % 100000 ∧ q.atomnum = r.atomnum % 100000 ∧
   Within d r.x q.x ∧ Within d r.y q.y ∧ Within d r.z q.z ∧
   (match r.vel, q.vel with
     | none, none => True
@@ -135,7 +137,8 @@ def RecSame (d : Nat) (r : Rec) (q : RRec) : Prop :=
     | _, _ => False)
 
 theorem roundRec_same (d : Nat) (r : Rec) : RecSame d r (roundRec d r) := by
-  refine ⟨rfl, rfl, ?_, ?_, ⟨rfl, roundDec_close _ _⟩, ⟨rfl, roundDec_close _ _⟩, ⟨rfl, roundDec_close _ _⟩, ?_⟩
+  refine ⟨rfl, rfl, ?_, ?_, rfl, rfl, ⟨rfl, roundDec_close _ _⟩, ⟨rfl, roundDec_close _ _⟩,
+    ⟨rfl, roundDec_close _ _⟩, ?_⟩
   · intro h0 h1; show wrap5 r.resnum = _; unfold wrap5; omega
   · intro h0 h1; show wrap5 r.atomnum = _; unfold wrap5; omega
   · cases hv : r.vel with
